@@ -1,4 +1,4 @@
-\* quick: all sequences <= 3 over the merge-relevant alphabet (24 operations)
+\* quick: all sequences <= 3 over the merge-relevant alphabet (25 operations)
 CONSTANTS
   Alphabet <- MergeAlphabet
   MaxLen = 3
